@@ -286,7 +286,7 @@ def run_shard(ctx):
     # two small planted families, every sign combination / many insertion orders
     #  (i) w -> x -> y, w <-> x, x <-> y with [y_x, x_w, w]: three members of one district whose subscripts and values chain
     # (ii) a bidirected chain a <-> b <-> c <-> d (<-> e): P*(a | the rest), the ancestral sets are joined only by the chain
-    for i in range(ctx.share({"quick": 640, "thorough": 6000}[ctx.tier])):
+    for i in range(ctx.share({"quick": 800, "thorough": 8000}[ctx.tier])):
         if i % 2 == 0:
             nm = gg.names(3, rng, unsorted=rng.random() < 0.3)
             rng.shuffle(nm)
@@ -298,6 +298,28 @@ def run_shard(ctx):
                 out = out[:2]
             cond = []
             cls = "planted_chained_district"
+        elif i % 4 == 1:
+            # (iii) one world with two interventions, one upstream of the other (a -> b -> c -> d, a -> d, world {a, b}) and
+            # two or three outcomes in that world: the ancestors of d_{a,b} are c_{b} and d_{a,b} (Definition 2.1 works in
+            # the graph with the edges into a and b cut), and c_{a,b} minimises to c_{b}
+            nm = gg.names(4, rng, unsorted=rng.random() < 0.3)
+            rng.shuffle(nm)
+            a, b, c, d = nm
+            di = [[a, b], [b, c], [c, d], [a, d]]
+            if rng.random() < 0.3:
+                di.append([b, d])
+            bi = [e for e in ([a, c], [c, d], [b, d]) if rng.random() < 0.2]
+            rng.shuffle(di)
+            gd = {"nodes": rng.sample(nm, 4), "di": di, "bi": bi, "hostile": "planted-chained-interventions"}
+            v = lambda: rng.random() < 0.5  # noqa: E731
+            wa, wb = v(), v()
+            world = [[a, wa], [b, wb]]
+            out = [[c, [list(w) for w in world], v()], [d, [list(w) for w in world], v()]]
+            if rng.random() < 0.3:
+                out = [[c, [[b, wb]], v()], [d, [list(w) for w in world], v()]]
+            rng.shuffle(out)
+            cond = []
+            cls = "planted_chained_interventions"
         else:
             k = rng.choice([4, 4, 5])
             nm = gg.names(k, rng, unsorted=rng.random() < 0.3)
